@@ -25,7 +25,7 @@ ENGINES = {
     'live': {'module': 'CcImpl.tla', 'cfg': {'quick': 'MC_live.cfg', 'thorough': 'MC_live.cfg'}, 'consts': {}, 'static': True,
              'builds': {'quick': ['all-dev'], 'thorough': ['all-dev']}, 'emit': False, 'workers': 4},
     # all histories of the core API over 3 objects with 2 traced fields
-    'core': _eng('core', dict(MaxOps=5), dict(MaxOps=7), {'quick': ['all-dev'], 'thorough': ['all-dev', 'all-rel', 'default-dev', 'noauto-rel']}),
+    'core': _eng('core', dict(MaxOps=5), dict(MaxOps=7), {'quick': ['all-dev'], 'thorough': ['all-dev', 'all-rel']}),
     # an untraced (pinning) field next to a traced one
     'pin': _eng('pin', dict(NS=1, NP=1, MaxOps=5), dict(MaxOps=7), {'quick': ['all-dev'], 'thorough': ['all-dev', 'all-rel']}),
     # finalization disabled
@@ -34,7 +34,7 @@ ENGINES = {
     'fault': _eng('fault', dict(MaxOps=5, MaxFaults=1, MaxTraceK=3, N=3), dict(MaxOps=7), {'quick': ['all-dev'], 'thorough': ['all-dev', 'all-rel']}),
     # weak pointers: downgrade / upgrade / Weak clone / Weak drop / weak fields, upgrades from finalizers and destructors
     'weak': _eng('weak', dict(N=2, NS=1, NW=1, MaxOps=6, MaxWRoots=2, OPS={"new", "clone", "drop", "set", "clear", "collect", "unwrap", "downgrade", "upgrade", "upgradef", "clonew", "dropw", "setw", "clearw", "put", "wnew"}),
-                 dict(MaxOps=8), {'quick': ['all-dev'], 'thorough': ['all-dev', 'all-rel', 'nofin-rel']}),
+                 dict(MaxOps=8), {'quick': ['all-dev'], 'thorough': ['all-dev', 'all-rel']}),
     'weaknofin': _eng('weaknofin', dict(N=2, NS=1, NW=1, FIN=False, MaxOps=6, MaxWRoots=2, MaxFaults=1, MaxTraceK=2, OPS={"new", "clone", "drop", "set", "collect", "unwrap", "downgrade", "upgrade", "upgradef", "dropw", "setw"}),
                  dict(MaxOps=7), {'quick': ['nofin-rel'], 'thorough': ['nofin-dev', 'nofin-rel']}),
     # automatic collections started by Cc::new, threshold feedback loop, configuration changes, panics in automatic collections
@@ -46,21 +46,21 @@ ENGINES = {
                 dict(MaxOps=7), {'quick': ['all-dev'], 'thorough': ['all-dev', 'all-rel']}),
     # saturation of the strong / weak counters at their real limits (bulk operations), later life of the object
     'sat': _eng('sat', dict(N=2, NS=1, NW=1, MaxOps=6, MaxWRoots=2, OPS={"new", "sat", "clone", "drop", "put", "collect", "downgrade", "upgrade", "dropw", "unwrap"}),
-                dict(MaxOps=7), {'quick': ['all-dev'], 'thorough': ['all-dev', 'nofin-rel']}),
+                dict(MaxOps=7), {'quick': ['all-dev'], 'thorough': ['all-dev', 'all-rel']}),
     # deep histories over two objects: finalizers that create / resurrect objects, sets mixing finalized and fresh objects
     'resur': _eng('resur', dict(N=2, NS=1, MaxOps=9, OPS={"new", "drop", "set", "clonef", "collect"}), dict(MaxOps=10, OPS={"new", "drop", "set", "clonef", "collect", "clear"}),
                   {'quick': ['all-dev'], 'thorough': ['all-dev', 'all-rel']}),
     # cleaners: register / clean / Cleanable drop / owner release by count and by the collector, actions that act
     'clean': _eng('clean', dict(N=2, NS=1, CLEAN=True, MaxActs=2, MaxOps=6, OPS={"new", "drop", "put", "collect", "register", "clean", "dropcl", "clone"}),
-                  dict(MaxOps=7), {'quick': ['all-dev'], 'thorough': ['all-dev', 'nofin-rel']}),
+                  dict(MaxOps=7), {'quick': ['all-dev'], 'thorough': ['all-dev', 'all-rel']}),
     # registering actions while an automatic collection is due (Cc::new of the map runs user code, nested register on the same Cleaner)
     'cleanauto': _eng('cleanauto', dict(N=2, NS=1, CLEAN=True, AUTO0=True, MaxActs=2, MaxOps=7, OPS={"new", "drop", "set", "collect", "register", "clean"}),
-                  dict(MaxOps=8), {'quick': ['all-dev'], 'thorough': ['all-dev', 'nofin-rel']}),
+                  dict(MaxOps=8), {'quick': ['all-dev'], 'thorough': ['all-dev', 'all-rel']}),
     'cleanfault': _eng('cleanfault', dict(N=2, NS=1, CLEAN=True, MaxActs=2, MaxOps=5, MaxFaults=1, MaxTraceK=1, OPS={"new", "drop", "put", "collect", "register", "clean", "dropcl"}),
-                  dict(MaxOps=6), {'quick': ['all-dev'], 'thorough': ['all-dev', 'nofin-rel']}),
+                  dict(MaxOps=6), {'quick': ['all-dev'], 'thorough': ['all-dev', 'all-rel']}),
     # deeper fault histories over two objects (stale marks / counters left by an unwound collection and what later operations do with them)
     'fault2': _eng('fault2', dict(N=2, NS=1, MaxOps=7, MaxFaults=1, MaxTraceK=3, OPS={"new", "clone", "drop", "set", "collect"}), dict(MaxOps=9),
-                   {'quick': ['all-dev'], 'thorough': ['all-dev', 'nofin-rel']}),
+                   {'quick': ['all-dev'], 'thorough': ['all-dev', 'all-rel']}),
     'faultnofin': _eng('faultnofin', dict(FIN=False, MaxOps=5, MaxFaults=1, MaxTraceK=3, OPS=CORE_OPS - {"fagain"}), dict(MaxOps=7), {'quick': ['nofin-rel'], 'thorough': ['nofin-dev', 'nofin-rel']}),
 }
 
@@ -103,6 +103,19 @@ def graph_conformance(tier, seed):
 
 GRAPH_PROPS = ['C01', 'C02', 'C03', 'C04', 'C05', 'C06', 'C07', 'C08', 'C09', 'C11', 'C12', 'C10', 'C13', 'C14', 'C15', 'C16', 'C20']
 
+
+def _check_engine_builds():
+    # a behaviour can only be replayed on a build whose features match the modelled ones
+    for name, e in ENGINES.items():
+        if e.get('static'):
+            continue
+        for tier, consts in e['consts'].items():
+            for b in e['builds'][tier]:
+                assert b.split('-')[0] in ('all', 'nofin'), (name, b)
+                assert consts['FIN'] == (b.split('-')[0] == 'all'), (name, tier, b)
+
+
+_check_engine_builds()
 
 GRAPH_ENGINES = ['resur', 'fault2', 'core', 'pin', 'nofin', 'fault', 'faultnofin', 'weak', 'weaknofin', 'auto', 'cyc', 'sat', 'clean', 'cleanfault', 'cleanauto']
 
